@@ -190,7 +190,9 @@ func IsBase(name string) bool {
 	return false
 }
 
-func (t *Type) IsContainer() bool { return t.Ref == nil && (t.Name == "list" || t.Name == "set" || t.Name == "map") }
+func (t *Type) IsContainer() bool {
+	return t.Ref == nil && (t.Name == "list" || t.Name == "set" || t.Name == "map")
+}
 
 // Resolve follows typedefs to the final type expression.
 func (t *Type) Resolve() *Type {
@@ -308,4 +310,17 @@ func (v *Value) String() string {
 		return "{" + strings.Join(s, ",") + "}"
 	}
 	return "?"
+}
+
+// SharesPackage reports whether two files of the program have the same go namespace.
+func SharesPackage(p *Program) bool {
+	seen := map[string]bool{}
+	for _, f := range p.Files {
+		ns := f.GoNamespace()
+		if seen[ns] {
+			return true
+		}
+		seen[ns] = true
+	}
+	return false
 }
